@@ -25,6 +25,7 @@ from histogrammar.defs import (
     Factory,
     JsonFormatException,
 )
+from histogrammar.primitives.count import Count
 from histogrammar.util import basestring, floatToJson, hasKeys, inheritdoc, numeq
 
 
@@ -213,7 +214,9 @@ class Label(Factory, Container, Collection):
             self._checkNPWeights(weights, shape)
             weights = self._makeNPWeights(weights, shape)
 
-        for x in self.values:
+        # quantity-bearing children first: they establish the batch length that a bare Count
+        # needs to turn a scalar weight into the right total
+        for x in sorted(self.values, key=lambda v: isinstance(v, Count)):
             x._numpy(data, weights, shape)
 
         # no possibility of exception from here on out (for rollback)
@@ -447,7 +450,9 @@ class UntypedLabel(Factory, Container, Collection):
             self._checkNPWeights(weights, shape)
             weights = self._makeNPWeights(weights, shape)
 
-        for x in self.values:
+        # quantity-bearing children first: they establish the batch length that a bare Count
+        # needs to turn a scalar weight into the right total
+        for x in sorted(self.values, key=lambda v: isinstance(v, Count)):
             x._numpy(data, weights, shape)
 
         # no possibility of exception from here on out (for rollback)
@@ -681,7 +686,9 @@ class Index(Factory, Container, Collection):
             self._checkNPWeights(weights, shape)
             weights = self._makeNPWeights(weights, shape)
 
-        for x in self.values:
+        # quantity-bearing children first: they establish the batch length that a bare Count
+        # needs to turn a scalar weight into the right total
+        for x in sorted(self.values, key=lambda v: isinstance(v, Count)):
             x._numpy(data, weights, shape)
 
         # no possibility of exception from here on out (for rollback)
@@ -923,7 +930,9 @@ class Branch(Factory, Container, Collection):
             self._checkNPWeights(weights, shape)
             weights = self._makeNPWeights(weights, shape)
 
-        for x in self.values:
+        # quantity-bearing children first: they establish the batch length that a bare Count
+        # needs to turn a scalar weight into the right total
+        for x in sorted(self.values, key=lambda v: isinstance(v, Count)):
             x._numpy(data, weights, shape)
 
         # no possibility of exception from here on out (for rollback)
